@@ -434,6 +434,19 @@ def c16(obj, kind, case, cfg, rec):
             if nan_merged:
                 g = order.get_group(obj.str_nan); rw = rows[rows['label'].map(repr) == repr(lab[g])]
                 rec('C16:summary#post.nan_shown_in_the_group_it_was_merged_into', len(rw) == 1 and obj.str_nan in rw.iloc[0]['content'], 'feature %s: NaN merged into %r but not shown there' % (f, g), dict(feature=f))
+    # the label the summary gives for a value is the label transform really outputs for a training row holding that value
+    tr_out = outcome(lambda: obj.transform(case['X']))
+    if tr_out[0] == 'ok':
+        for f in feats:
+            if f not in obj.qualitative_features: continue
+            raw = ob.raw_feature_of(obj, f); rows = sm[sm['feature'] == f]; shown = {}
+            for _, rw in rows.iterrows():
+                for v in rw['content']: shown[repr(v)] = rw['label']
+            bad = []
+            for v, o in zip(case['X'][raw].tolist(), tr_out[1][f].tolist()):
+                key = repr(obj.str_nan) if isnan(v) else repr(S(v))
+                if key in shown and not (isnan(o) and isnan(v) and not obj.features_dropna.get(f, obj.dropna)) and not (shown[key] == o): bad.append((v, shown[key], o))
+            rec('C16:summary#post.label_shown_is_the_label_transform_outputs', not bad, 'feature %s: (value, label in summary, transform output) %r' % (f, bad[:4]), dict(feature=f))
     if 'Carver' in kind and kind != 'MulticlassCarver' and obj._history is not None:
         h = outcome(lambda: obj.history())
         rec('C16:history#raises.nothing', h[0] == 'ok', 'history() raised %s' % h[0])
@@ -459,6 +472,31 @@ def c16(obj, kind, case, cfg, rec):
             rec('C16:history#post.last_viable_is_fitted_grouping', okh, 'feature %s: last viable %r, fitted %r' % (f, last, dict(order.content)), dict(feature=f))
             sort_by = obj.sort_by
             rec('C16:history#post.every_combination_has_its_measure', all(sort_by in x for x in recs_), 'missing measure', dict(feature=f))
+            if f in obj.qualitative_features and len(case['X']) == len(case['y']):
+                # recompute the association value of every tested combination from the training rows (qualitative features: combinations list raw values)
+                from rtc import oracle_carver as oc
+                col = case['X'][f].tolist(); yv = case['y'].tolist(); bad_m = []
+                for x in recs_[1:]:
+                    comb = x['combination']; where = {}
+                    for gi, g in enumerate(comb):
+                        for v in g: where[repr(S(v)) if not (isinstance(v, str) and v == obj.str_nan) else '__nan__'] = gi
+                    cells = {}
+                    ok_rows = True
+                    for v, t in zip(col, yv):
+                        key = '__nan__' if isnan(v) else repr(S(v))
+                        if key not in where:
+                            if isnan(v) and not x.get('grouping_nan'): continue          # first search: missing rows are left out
+                            ok_rows = False; break
+                        cells.setdefault(where[key], []).append(t)
+                    if not ok_rows or len(cells) < 2: continue
+                    tab = oc.Tab(case['target'], {})
+                    cl = [[sum(1 for t in cells[g] if t == 0), sum(1 for t in cells[g] if t == 1)] if case['target'] == 'binary' else list(cells[g]) for g in sorted(cells)]
+                    try: mval = oc.measure(tab, cl, sort_by)
+                    except Exception: continue
+                    rec_v = x.get(sort_by)
+                    if rec_v is None or (isinstance(rec_v, float) and math.isnan(rec_v)) or math.isnan(mval): continue
+                    if abs(mval - rec_v) > 1e-9 * max(1, abs(mval)): bad_m.append((comb, rec_v, mval))
+                rec('C16:history#post.recorded_association_equals_recomputation', not bad_m, 'feature %s: (combination, recorded, recomputed) %r' % (f, bad_m[:2]), dict(feature=f))
     for f in ob.features_of(case):
         if f not in feats and f not in obj.features_casting and getattr(obj, '_history', None):
             hist = obj._history.get(f, [])
@@ -525,7 +563,10 @@ def _one(arg):
                     try: c03(reload(eo, kind), kind, case, cfg, lambda c, ok, m, ex=None: rec(c + '.after_edit.reloaded_from_json', ok, m, dict(ex or {}, edits=done)))
                     except Exception: pass
                 if 'C05' in props: c05(eo, kind, case, dict(cfg, min_freq_edited=True), rec_e, rng)
-                if 'C16' in props: c16(eo, kind, case, cfg, lambda c, ok, m, ex=None: rec_e(c, ok, m, ex) if 'history' not in c else None)
+                if 'C16' in props:
+                    c16(eo, kind, case, cfg, lambda c, ok, m, ex=None: rec_e(c, ok, m, ex) if 'history' not in c else None)
+                    try: c16(reload(eo, kind), 'BaseDiscretizer', case, cfg, lambda c, ok, m, ex=None: rec(c + '.after_edit.reloaded_from_json', ok, m, dict(ex or {}, edits=done)) if 'history' not in c else None)
+                    except Exception: pass
         except Exception as e:
             recs.append(('X:battery_crash', False, lit, 'edited-object clauses crashed: %s' % traceback.format_exc()[-600:]))
     if 'C04' in props and kind != 'MulticlassCarver':
